@@ -4,7 +4,9 @@
 //!
 //! usage: shuffle_stats --out FILE --seed BASE --scale S   (S multiplies the trial counts)
 use bourse_book::types::Side;
-use bourse_de::{Env, MarketEnv};
+use bourse_de::agents::{AgentSet, MarketAgentSet};
+use bourse_de::{market_sim_runner, sim_runner, Env, MarketEnv};
+use rand::RngCore;
 use rand::SeedableRng;
 use rand_xoshiro::Xoroshiro128StarStar;
 use serde_json::{json, Value};
@@ -129,6 +131,46 @@ fn batch_perm_opt(multi: bool, n: usize, seed: u64, content: u32, prior: usize, 
     }
 }
 
+/// Probe agent set: every update submits `n` new limit orders (trader id = submission index) and takes `draws` words from the
+/// generator, as real agents do.  Used to sample the processing order of the steps of a simulation driven through the public
+/// runners, i.e. with the generator the RUNNER builds from the seed.
+struct Probe { n: usize, draws: usize }
+impl AgentSet for Probe {
+    fn update<G: RngCore>(&mut self, env: &mut Env, rng: &mut G) {
+        for _ in 0..self.draws { rng.next_u64(); }
+        for i in 0..self.n { env.place_order(Side::Ask, 1, i as u32, Some(1000 + i as u32)).unwrap(); }
+    }
+}
+impl MarketAgentSet for Probe {
+    fn update<G: RngCore, const M: usize, const N: usize>(&mut self, env: &mut MarketEnv<M, N>, rng: &mut G) {
+        for _ in 0..self.draws { rng.next_u64(); }
+        for i in 0..self.n { env.place_order(i % M, Side::Ask, 1, i as u32, Some(1000 + i as u32)).unwrap(); }
+    }
+}
+
+/// index permutation of step `k` (0-based) of a simulation of k + 1 steps through sim_runner / market_sim_runner with seed `seed`
+fn runner_perm(multi: bool, n: usize, seed: u64, k: usize, draws: usize) -> Vec<usize> {
+    let step_size = 1_000u64;
+    let mut a = Probe { n, draws };
+    // (arrival time, trader id) of every order; those of step k arrived at k * step_size + position
+    let mut arrived: Vec<(u64, u32)> = Vec::new();
+    if multi {
+        let mut env: MarketEnv<2, 10> = MarketEnv::new(0, [1, 1], step_size, true);
+        market_sim_runner(&mut env, &mut a, seed, (k + 1) as u64, false);
+        for asset in 0..2 { for o in env.get_orders(asset) { arrived.push((o.arr_time, o.trader_id)); } }
+    } else {
+        let mut env = Env::new(0, 1, step_size, true);
+        sim_runner(&mut env, &mut a, seed, (k + 1) as u64, false);
+        for o in env.get_orders() { arrived.push((o.arr_time, o.trader_id)); }
+    }
+    let start = k as u64 * step_size;
+    let mut perm = vec![usize::MAX; n];
+    for (t, tr) in arrived {
+        if t >= start && t < start + n as u64 { perm[(t - start) as usize] = tr as usize; }
+    }
+    perm
+}
+
 fn perm_table(env: &str, n: usize, trials: u64, base: u64, f: &dyn Fn(usize, u64, u32) -> Vec<usize>) -> Value {
     let mut counts: BTreeMap<Vec<usize>, u64> = BTreeMap::new();
     for t in 0..trials {
@@ -232,6 +274,30 @@ fn main() {
         emit(perm_table("env_trading_off", n, trials, base ^ (0xE0 + n as u64) << 32, &|n, seed, v| batch_perm_opt(false, n, seed, v % 2, 0, 0, 1)), &mut f);
         emit(perm_table("menv_trading_off_one_asset", n, trials, base ^ (0xF0 + n as u64) << 32, &|n, seed, v| batch_perm_opt(true, n, seed, v % 2, 0, 0, 1 | 4)), &mut f);
         emit(perm_table("menv_small_step", n, trials, base ^ (0x1F0 + n as u64) << 32, &|n, seed, _v| batch_perm_opt(true, n, seed, 0, 0, 0, 2 | 8)), &mut f);
+    }
+    // schedules induced by seeds THROUGH THE PUBLIC RUNNERS (the generator the runner builds from the seed): consecutive small
+    // seeds 0, 1, 2, ... as a user would choose them, and consecutive seeds from the run's base; first, second and third step of
+    // a simulation; agents that draw nothing and agents that draw before submitting
+    let trials = 24_000 * scale;
+    for multi in [false, true] {
+        for k in 0..3usize {
+            let name = format!("{}_step{}", if multi { "market_sim_runner" } else { "sim_runner" }, k);
+            emit(perm_table(&format!("{}_small_seeds", name), 3, trials, 0, &|n, seed, v| runner_perm(multi, n, seed, k, v as usize)), &mut f);
+            emit(perm_table(&format!("{}_small_seeds", name), 4, trials, 1 << 20, &|n, seed, v| runner_perm(multi, n, seed, k, (2 * v) as usize)), &mut f);
+            emit(perm_table(&name, 3, trials, base ^ (0x2F0 + k as u64) << 32, &|n, seed, v| runner_perm(multi, n, seed, k, v as usize)), &mut f);
+            let (a, b) = pos_pair_tables(&format!("{}_small_seeds", name), 8, 24_000 * scale, 0, &|n, seed, _v| runner_perm(multi, n, seed, k, 1));
+            emit(a, &mut f); emit(b, &mut f);
+        }
+    }
+    // the same seed through the runner again gives the same processing order (boundary seeds included)
+    for multi in [false, true] {
+        for n in [2usize, 3, 5, 8, 13] {
+            for s in [0u64, 1, 2, 3, 101, u64::MAX, 1 << 63, base] {
+                let labels = ["runner", "runner again", "runner, third time"];
+                let perms = vec![runner_perm(multi, n, s, 1, 0), runner_perm(multi, n, s, 1, 0), runner_perm(multi, n, s, 1, 0)];
+                emit(json!({"kind": "det2", "env": if multi { "market_sim_runner" } else { "sim_runner" }, "n": n, "seed": s.to_string(), "labels": labels, "perms": perms}), &mut f);
+            }
+        }
     }
     f.flush().unwrap();
     println!("{}", json!({"tables": tables, "cells": cells, "steps": steps}));
